@@ -5,7 +5,7 @@ from hqrules.templates import (effect_blocks, must_pass, state_writes, variants_
                                local_field_sources, binops, operand_fields, bool_uses, check_arm_effect, field_write_sites,
                                bodies_with_effect)
 from .common import *
-from . import reactor_table
+from . import reactor_table, shared_rules
 
 EXPLANATION = ('C02 is mostly a liveness statement, which no static argument in reach decides. Decided are the structural clauses: the id set '
                'attached to the job and the id set handed to the core come from the same description (no phantom / orphan ids), ids removed from '
@@ -26,6 +26,31 @@ def run(ctx):
     ctx.rule('R02.3', 'no orphan: tasks are removed from the core only via on_cancel_tasks / task_failed / task_finished, and the same ids become terminal in the job')
     ctx.rule('R02.4', 'no lost wake-up: every site that makes a task ready is followed by ask_for_scheduling, or by returning need_scheduling=true to on_task_update which asks')
 
+    ctx.rule('R02.5', 'worker loss: every task of the lost worker assignment is re-queued in the same iteration (none is dropped)')
+    ctx.rule('R02.6', 'job termination reads the counters: every terminal transition increments the counter of its new state on every path')
+    shared_rules.terminal_counter_on_every_path(ctx, 'R02.6')
+    orw = prog.body(REACTOR + 'on_remove_worker')
+    qadd = [bi for bi in orw.call_blocks(TQS + 'add_ready_task')]
+    qmove = orw.call_blocks(TQ + 'move_prefilled_task_to_ready')
+    loops = {}
+    for bi in qadd + qmove:
+        hs = loop_headers_containing(orw, bi)
+        if hs:
+            loops.setdefault(hs[0], []).append(bi)
+    ctx.floor('R02.5', len(loops), 2, 'requeue loops in on_remove_worker')
+    for h, sites in sorted(loops.items()):
+        # entry of an iteration = the Some edge of the iterator; every path from there back to the header passes a requeue
+        body_entries = [x for x in orw.succ[h]]
+        from hqrules.templates import scrutinees as _sc
+        it_next = [x for x in orw.reach_from([h]) if orw.term[x] and orw.term[x]['k'] == 'call' and (callee_decl(orw.term[x]) or '').endswith('Iterator::next') and loop_headers_containing(orw, x)[:1] == [h]]
+        ctx.require(it_next, 'R02.5: iterator of requeue loop')
+        OPTION = 'core::option::Option'
+        keys = [k for k, d in _sc(orw, OPTION).items() if d['root'] == orw.term[it_next[0]]['d'][0]]
+        ctx.require(keys, 'R02.5: Option of the loop iterator')
+        entries, region = orw.arm_entries(OPTION, {'Some'}, keys[0])
+        ok, wit = must_pass(orw, entries, sites, exits=[h] + list(orw.returns()))
+        what = 'assigned' if any(x in qadd for x in sites) else 'prefilled'
+        ctx.ob('R02.5', f'on_remove_worker|{what} tasks requeued', ok, f'every {what} task of the lost worker is put back into the ready queue in its iteration (a `continue` before the re-queue loses the task)', orw.loc(sites[0]))
     # ---- R02.1
     sites = [(o, b, bi) for o, b, bi in call_sites(prog, INTARRAY + 'from_range') if o.startswith(HQ) and not is_test_util(o)]
     ctx.floor('R02.1', len(sites), 2, 'from_range call sites')
